@@ -1,9 +1,631 @@
-"""C07, generic-grid part (Cartesian ring/pos, bounds grids, nesting, reduce). Filled in below."""
+"""C07, generic-grid part: Cartesian ring/pos, step / bounds coordinates, nesting, reduce, changePitch.
+
+Model: lean/ArmiVerif/Model/Grid.lean; theorems: lean/ArmiVerif/Props/C07Grid.lean; driver Drivers/Grid.lean.
+Called by harness/c07.py (run / search).
+"""
+import math
+
+import numpy as np
+
+from harness import common
+from harness.common import Failure, lean_run
+
+SQRT3 = math.sqrt(3.0)
+TOL = 1e-9
 
 
+# ------------------------------------------------------------------------------------------ encoders
+def enc_str(s):
+    return "s" + str(s).replace(" ", "+")
+
+
+def enc_row(row):
+    if isinstance(row, (tuple, list, np.ndarray)):
+        return common.ratlist(row)
+    return common.rat(row)
+
+
+def enc_args(unitSteps, bounds, limits, offset, geom, sym):
+    us = "[" + ",".join(enc_row(r) for r in unitSteps) + "]"
+    bs = "[" + ",".join("_" if b is None else common.ratlist(b) for b in bounds) + "]"
+    ls = "[" + ",".join(f"[{int(a)},{int(b)}]" for a, b in limits) + "]"
+    off = "_" if offset is None else common.ratlist(offset)
+    return f"{us} {bs} {ls} {off} {enc_str(geom)} {enc_str(sym)}"
+
+
+def enc_grid(g):
+    """constructor arguments of a live grid, read from its reduce() (used only where reduce itself is
+    not the thing under comparison: nesting on real composites)."""
+    p = g.reduce()
+    return enc_args(p.unitSteps, p.bounds, p.unitStepLimits, p.offset, p.geomType, p.symmetry)
+
+
+def canon_args(p):
+    return enc_args(p.unitSteps, p.bounds, p.unitStepLimits, p.offset, p.geomType, p.symmetry)
+
+
+def ints(ix):
+    return "[" + ",".join(str(int(v)) for v in ix) + "]"
+
+
+def parse_rats(line):
+    if line in ("reject", "bad-op"):
+        return None
+    return [common.unrat(x) for x in common.parse_list(line)]
+
+
+def close_vec(fl, qs, scale=1.0, tol=TOL):
+    if qs is None or fl is None:
+        return qs is None and fl is None
+    if len(fl) != len(qs):
+        return False
+    return all(abs(float(f) - float(q)) <= tol * max(1.0, scale, abs(float(q))) for f, q in zip(fl, qs))
+
+
+# ------------------------------------------------------------------------------------------ Cartesian ring/pos
+def run_cart_ringpos(ctx):
+    from armi.reactor import grids
+
+    M = ctx.pick(30, 80)
+    req, impl, cases = [], [], []
+    for through in (True, False):
+        g = grids.CartesianGrid.fromRectangle(1.0, 1.0, numRings=1, isOffset=not through)
+        t = "T" if through else "F"
+        seen = {}
+        count = {}
+        for i in range(-M, M + 1):
+            for j in range(-M, M + 1):
+                rp = g.getRingPos((i, j))
+                rp = (int(rp[0]), int(rp[1]))
+                req.append(f"cartringpos {t} {i} {j}"); impl.append(f"({rp[0]},{rp[1]})"); cases.append(("cartringpos", through, i, j))
+                case = {"through": through, "i": i, "j": j}
+                if rp in seen:
+                    ctx.fail("cart-ringpos-injective", "distinct cells have distinct (ring, pos)", case,
+                             observed=[rp, seen[rp]])
+                seen[rp] = (i, j)
+                n = g.getPositionsInRing(rp[0])
+                if not (1 <= rp[1] <= n):
+                    ctx.fail("cart-pos-range", "1 <= pos <= getPositionsInRing(ring)", case, observed=rp, expected=n)
+                # ring is the Chebyshev distance of the centre (in half pitches for the offset grid)
+                want = max(abs(i), abs(j)) + 1 if through else max(abs(2 * i + 1), abs(2 * j + 1)) // 2 + 1
+                if rp[0] != want:
+                    ctx.fail("cart-ring-is-distance", "ring == Chebyshev distance from the grid centre + 1", case,
+                             observed=rp[0], expected=want)
+                count[rp[0]] = count.get(rp[0], 0) + 1
+                ctx.case(("cartcell", through, i, j))
+        full = M if through else M  # rings completely inside the enumerated square
+        for ring in range(1, full + 1):
+            n = g.getPositionsInRing(ring)
+            req.append(f"cartposinring {t} {ring}"); impl.append(str(int(n))); cases.append(("cartposinring", through, ring))
+            if count.get(ring, 0) != n:
+                ctx.fail("cart-ring-size", "ring r holds getPositionsInRing(r) cells", {"through": through, "ring": ring},
+                         observed=count.get(ring, 0), expected=n)
+        tot = 0
+        totals = [0]
+        for ring in range(1, 60):
+            tot += g.getPositionsInRing(ring)
+            totals.append(tot)
+            req.append(f"carttotal {t} {ring}"); impl.append(str(tot)); cases.append(("carttotal", through, ring))
+        for n in list(range(-2, ctx.pick(600, 3000))) + [totals[r] + d for r in range(1, 59) for d in (-1, 0, 1)]:
+            m = g.getMinimumRings(n)
+            req.append(f"cartminrings {t} {n}"); impl.append(str(int(m))); cases.append(("cartminrings", through, n))
+            if n >= 1 and not (totals[m] >= n and (m == 1 or totals[m - 1] < n)):
+                ctx.fail("cart-minrings-least", "getMinimumRings(n) is the least ring count holding n cells",
+                         {"through": through, "n": n}, observed=m)
+    model = lean_run("Grid", req)
+    ctx.compare("Model/Grid.lean cartRingPos vs CartesianGrid", cases, model, impl)
+    ctx.evaluations += len(req)
+    ctx.count("cartesian ring/pos cells", 2 * (2 * M + 1) ** 2)
+
+
+# ------------------------------------------------------------------------------------------ generated grids
+def inc_dyadic(rng, n, lo=0.0, step_hi=8.0, bits=3):
+    out = [lo]
+    for _ in range(n):
+        out.append(out[-1] + max(2.0 ** -bits, common.dyadic(rng, 0.125, step_hi, bits)))
+    return out
+
+
+def gen_grid(rng, kind):
+    """(class, ctor kwargs as given to the real constructor) -- the model gets exactly these arguments."""
+    from armi.reactor import grids
+
+    if kind in ("hexF", "hexC"):
+        cu = kind == "hexC"
+        pitch = rng.choice([1.0, 2.5, 16.142, common.dyadic(rng, 0.5, 20, 4)])
+        us = grids.HexGrid._getRawUnitSteps(pitch, cu)
+        n = rng.randint(0, 3)
+        sym = rng.choice(["full", "third periodic"])
+        off = rng.choice([None, None, (common.dyadic(rng, -2, 2, 3), common.dyadic(rng, -2, 2, 3), common.dyadic(rng, -2, 2, 3))])
+        return grids.HexGrid, dict(unitSteps=us, unitStepLimits=((-n, n), (-n, n), (0, 1)), symmetry=sym, geomType="hex", offset=off)
+    if kind in ("cart", "cartO"):
+        w, h = common.dyadic(rng, 0.5, 4, 3), common.dyadic(rng, 0.5, 4, 3)
+        n = rng.randint(1, 3)
+        off = (w / 2.0, h / 2.0, 0.0) if kind == "cartO" else rng.choice([None, (0.0, 0.0, 0.0)])
+        sym = rng.choice(["full", "quarter reflective", "quarter periodic through center assembly"])
+        return grids.CartesianGrid, dict(unitSteps=((w, 0.0, 0.0), (0.0, h, 0.0), (0, 0, 0)),
+                                        unitStepLimits=((-n, n), (-n, n), (0, 1)), offset=off, symmetry=sym, geomType="cartesian")
+    if kind == "axial":
+        return grids.AxialGrid, dict(bounds=(None, None, inc_dyadic(rng, rng.randint(1, 7))))
+    if kind == "axialNp":
+        off = rng.choice([None, (0.0, 0.0, common.dyadic(rng, -4, 4, 2))])
+        return grids.AxialGrid, dict(bounds=(None, None, np.array(inc_dyadic(rng, rng.randint(1, 7)))), offset=off)
+    if kind == "trz":
+        nth = rng.randint(1, 6)
+        th = [0.0] + sorted({common.dyadic(rng, 0.125, 6.25, 3) for _ in range(nth)})
+        return grids.ThetaRZGrid, dict(bounds=(np.array(th), np.array(inc_dyadic(rng, rng.randint(1, 5))),
+                                               np.array(inc_dyadic(rng, rng.randint(1, 5)))), geomType="thetarz", symmetry="full")
+    if kind == "mixed":
+        # 2-D step matrix restricted to the step dimensions + axial bounds (3-D hex / Cartesian mesh)
+        w, h = common.dyadic(rng, 0.5, 4, 3), common.dyadic(rng, 0.5, 4, 3)
+        sk = common.dyadic(rng, 0, 2, 2)
+        n = rng.randint(1, 2)
+        return grids.CartesianGrid, dict(unitSteps=((w, 0.0), (sk, h), (0, 0)), bounds=(None, None, inc_dyadic(rng, rng.randint(1, 5))),
+                                        unitStepLimits=((-n, n), (-n, n), (0, 1)))
+    raise ValueError(kind)
+
+
+def ctor_args(kw):
+    """the six constructor arguments as the model sees them (defaults of StructuredGrid.__init__ filled in)."""
+    return (kw.get("unitSteps", (0, 0, 0)), kw.get("bounds", (None, None, None)),
+            kw.get("unitStepLimits", ((0, 1), (0, 1), (0, 1))), kw.get("offset", None))
+
+
+def impl_vec(f, *a, **k):
+    try:
+        return [float(v) for v in f(*a, **k)]
+    except (IndexError, ValueError):
+        return None
+
+
+def probe_indices(rng, g, kw):
+    (i0, i1), (j0, j1), (k0, k1) = g.getIndexBounds()
+    out = []
+    for _ in range(10):
+        out.append((rng.randint(i0 - 1, i1 + 1), rng.randint(j0 - 1, j1 + 1), rng.randint(k0 - 1, k1 + 1)))
+    out += [(i0, j0, k0), (max(i0, i1 - 1), max(j0, j1 - 1), max(k0, k1 - 1)), (0, 0, 0), (i1 - 2, j1 - 2, k1 - 2), (i1 - 1, j1 - 1, k1 - 2)]
+    return out
+
+
+def run_generated(ctx):
+    from armi.reactor import grids
+
+    rng = ctx.rng
+    kinds = ["hexF", "hexC", "cart", "cartO", "axial", "axialNp", "trz", "mixed"]
+    ngrids = ctx.pick(160, 1200)
+    req, cases, impl_vals = [], [], []
+    exact_req, exact_impl, exact_cases = [], [], []
+    for t in range(ngrids):
+        kind = kinds[t % len(kinds)]
+        cls, kw = gen_grid(rng, kind)
+        g = cls(**kw)
+        us, bs, ls, off = ctor_args(kw)
+        A = enc_args(us, bs, ls, off, g._geomType, g._symmetry)
+        case0 = {"kind": kind, "args": A}
+        scale = 1.0
+        idxs = probe_indices(rng, g, kw)
+        for ix in idxs:
+            native = dict(nativeCoords=True) if kind == "trz" else {}
+            c = impl_vec(g.getCoordinates, ix, **native)
+            b = impl_vec(g.getCellBase, ix)
+            tp = impl_vec(g.getCellTop, ix)
+            for op, v in (("coords", c), ("base", b), ("top", tp)):
+                req.append(f"{op} {A} {ints(ix)}"); impl_vals.append(v); cases.append({**case0, "op": op, "index": list(ix)})
+            grid_oracle(ctx, g, kind, case0, ix, c, b, tp)
+            ctx.case(("grid", kind, t, ix))
+        # metadata
+        exact_req.append(f"axialonly {A}"); exact_impl.append("T" if g.isAxialOnly else "F"); exact_cases.append({**case0, "op": "axialonly"})
+        ib = g.getIndexBounds()
+        exact_req.append(f"indexbounds {A}"); exact_impl.append("[" + ",".join(f"[{int(a)},{int(b)}]" for a, b in ib) + "]")
+        exact_cases.append({**case0, "op": "indexbounds"})
+        # reduce: constructor arguments come back; a grid rebuilt from them is the same grid
+        p = g.reduce()
+        exact_req.append(f"reduce {A}"); exact_impl.append(canon_args(p)); exact_cases.append({**case0, "op": "reduce"})
+        reduce_oracle(ctx, g, cls, p, kind, case0, idxs)
+    model = lean_run("Grid", req + exact_req)
+    mv, me = model[: len(req)], model[len(req):]
+    for c, line, v in zip(cases, mv, impl_vals):
+        q = parse_rats(line)
+        if line == "bad-op" or not close_vec(v, q):
+            ctx.disagree("Model/Grid.lean coordinates vs StructuredGrid", c, line, v)
+    ctx.compare("Model/Grid.lean metadata/reduce vs StructuredGrid", exact_cases, me, exact_impl)
+    ctx.evaluations += len(model)
+    ctx.samples.append({"request": req[0], "model": mv[0], "impl": impl_vals[0]})
+    ctx.samples.append({"request": exact_req[2], "model": me[2], "impl": exact_impl[2]})
+    ctx.count("generated grids", ngrids)
+
+
+def grid_oracle(ctx, g, kind, case0, ix, c, b, tp):
+    """affine / midpoint clauses on the real grid."""
+    case = {**case0, "index": list(ix)}
+    if c is not None and b is not None and tp is not None:
+        mid = [(x + y) / 2.0 for x, y in zip(b, tp)]
+        if not close_vec(c, mid):
+            ctx.fail("grid-centre-is-midpoint", "centre == (base + top) / 2", case, observed=c, expected=mid)
+    nxt = tuple(v + 1 for v in ix)
+    bn = impl_vec(g.getCellBase, nxt)
+    if tp is not None and bn is not None and not close_vec(tp, bn):
+        ctx.fail("grid-top-is-next-base", "top(idx) == base(idx + 1)", case, observed=tp, expected=bn)
+    if (tp is None) != (bn is None):
+        ctx.fail("grid-top-is-next-base", "top(idx) is defined exactly when base(idx+1) is", case, observed=[tp, bn])
+    bounds = g.getBounds()
+    off = g.offset
+    for d in range(3):
+        bd = bounds[d]
+        if bd is not None:
+            k = ix[d]
+            if 0 <= k < len(bd) - 1:
+                if c is not None and abs(c[d] - ((bd[k] + bd[k + 1]) / 2.0 + off[d])) > TOL * max(1, abs(c[d])):
+                    ctx.fail("grid-bounds-midpoint", "bounds dimension: centre == (b[k] + b[k+1]) / 2 + offset", {**case, "dim": d},
+                             observed=c[d])
+                if b is not None and abs(b[d] - (bd[k] + off[d])) > TOL * max(1, abs(b[d])):
+                    ctx.fail("grid-bounds-base", "bounds dimension: base == b[k] + offset", {**case, "dim": d}, observed=b[d])
+            elif k < 0 and c is not None:
+                ctx.fail("grid-bounds-negative", "negative index in a bounds dimension is refused", {**case, "dim": d}, observed=c)
+    # affine in the step dimensions: second difference vanishes, first difference independent of position
+    if kind in ("hexF", "hexC", "cart", "cartO", "mixed") and c is not None:
+        for d in (0, 1):
+            e = [0, 0, 0]; e[d] = 1
+            p1 = impl_vec(g.getCoordinates, tuple(a + q for a, q in zip(ix, e)))
+            p0 = impl_vec(g.getCoordinates, (0, 0, ix[2]))
+            pe = impl_vec(g.getCoordinates, tuple(e[:2]) + (ix[2],))
+            if p1 is None or p0 is None or pe is None:
+                continue
+            d1 = [x - y for x, y in zip(p1, c)]
+            d0 = [x - y for x, y in zip(pe, p0)]
+            if not close_vec(d1, d0, scale=max(abs(v) for v in c)):
+                ctx.fail("grid-step-affine", "step dimension: coordinates are affine in the index", {**case, "dim": d},
+                         observed=d1, expected=d0)
+    if kind == "trz" and c is not None:
+        xyz = impl_vec(g.getCoordinates, ix)
+        want = [c[1] * math.cos(c[0]), c[1] * math.sin(c[0]), c[2]]
+        if xyz is None or not close_vec(xyz, want):
+            ctx.fail("trz-xyz", "theta-R-Z: (x, y, z) == (r cos theta, r sin theta, z)", case, observed=xyz, expected=want)
+
+
+def same_vec(a, b):
+    if a is None or b is None:
+        return a is None and b is None
+    return len(a) == len(b) and all(x == y for x, y in zip(a, b))
+
+
+def reduce_oracle(ctx, g, cls, p, kind, case0, idxs):
+    key = "grid-reduce-mixed-step-bounds" if kind == "mixed" else "grid-reduce-roundtrip"
+    try:
+        g2 = cls(*p)
+    except Exception as e:  # noqa
+        ctx.fail(key, "type(grid)(*grid.reduce()) rebuilds the grid", case0, observed=repr(e)[:200])
+        return
+    meta = lambda x: (x._geomType, x._symmetry, x.getIndexBounds(), x.isAxialOnly, len(x), type(x).__name__)
+    if meta(g) != meta(g2):
+        ctx.fail(key, "rebuilt grid has the same metadata", case0, observed=meta(g2), expected=meta(g))
+    if canon_args(g2.reduce()) != canon_args(p):
+        ctx.fail(key, "reduce of the rebuilt grid gives the same arguments", case0, observed=canon_args(g2.reduce()))
+    allidx = list(g.getAllIndices())[:200] + list(idxs)
+    native = dict(nativeCoords=True) if kind == "trz" else {}
+    for ix in allidx:
+        for f in ("getCoordinates", "getCellBase", "getCellTop"):
+            kw = native if f == "getCoordinates" else {}
+            a, b = impl_vec(getattr(g, f), ix, **kw), impl_vec(getattr(g2, f), ix, **kw)
+            if not same_vec(a, b):
+                ctx.fail(key, f"rebuilt grid gives the same {f} for every index", {**case0, "index": list(ix)}, observed=b, expected=a)
+                return
+
+
+# ------------------------------------------------------------------------------------------ nesting
+class Chain:
+    """a chain of real composites: top (grid-less CoordinateLocation) > ... > leaf."""
+
+
+def make_composites(rng, flavour):
+    """system (placed by a grid-less CoordinateLocation with non-zero origin) > assembly > block > pin."""
+    from armi.reactor import grids
+    from armi.reactor.composites import Composite
+
+    top = Composite("system")
+    origin = (common.dyadic(rng, -200, 200, 2), common.dyadic(rng, -200, 200, 2), common.dyadic(rng, -50, 50, 2))
+    if rng.random() < 0.15:
+        origin = (0.0, 0.0, 0.0)
+    top.spatialLocator = grids.CoordinateLocation(origin[0], origin[1], origin[2], None)
+    root = Composite("reactor")
+    root.add(top)
+    if flavour == "hex":
+        sg = grids.HexGrid.fromPitch(rng.choice([16.142, 8.0, common.dyadic(rng, 2, 20, 3)]), numRings=3, armiObject=top,
+                                     cornersUp=rng.random() < 0.5, symmetry="third periodic")
+    else:
+        sg = grids.CartesianGrid.fromRectangle(common.dyadic(rng, 2, 20, 3), common.dyadic(rng, 2, 20, 3), numRings=3,
+                                               isOffset=rng.random() < 0.5, armiObject=top)
+    top.spatialGrid = sg
+    asm = Composite("assembly")
+    asm.spatialLocator = sg[rng.randint(-3, 3), rng.randint(-3, 3), 0]
+    top.add(asm)
+    nb = rng.randint(2, 6)
+    ag = grids.AxialGrid(bounds=(None, None, np.array(inc_dyadic(rng, nb, lo=common.dyadic(rng, 0, 4, 2)))), armiObject=asm)
+    asm.spatialGrid = ag
+    blk = Composite("block")
+    blk.spatialLocator = ag[0, 0, rng.randint(0, nb - 1)]
+    asm.add(blk)
+    depth = rng.choice([3, 4, 4])
+    leaf = blk
+    if depth == 4:
+        if rng.random() < 0.6:
+            pg = grids.HexGrid.fromPitch(common.dyadic(rng, 0.5, 2, 4), numRings=2, armiObject=blk, cornersUp=rng.random() < 0.5)
+        else:
+            pg = grids.CartesianGrid.fromRectangle(common.dyadic(rng, 0.5, 2, 4), common.dyadic(rng, 0.5, 2, 4), numRings=2,
+                                                   isOffset=rng.random() < 0.5, armiObject=blk)
+        blk.spatialGrid = pg
+        pin = Composite("pin")
+        r = rng.random()
+        if r < 0.7:
+            pin.spatialLocator = pg[rng.randint(-2, 2), rng.randint(-2, 2), 0]
+        else:
+            pin.spatialLocator = grids.CoordinateLocation(common.dyadic(rng, -2, 2, 4), common.dyadic(rng, -2, 2, 4),
+                                                          common.dyadic(rng, -1, 1, 4), pg)
+        blk.add(pin)
+        leaf = pin
+    return root, leaf
+
+
+def chain_of(loc):
+    out = []
+    while loc is not None:
+        out.append(loc)
+        loc = loc.parentLocation
+    return out
+
+
+def enc_loc(loc):
+    from armi.reactor import grids
+
+    if isinstance(loc, grids.CoordinateLocation):
+        xyz = [float(v) for v in loc.indices]
+        if loc.grid is None:
+            return f"C {common.ratlist(xyz)}"
+        return f"CG {enc_grid(loc.grid)} {common.ratlist(xyz)}"
+    if loc.grid is None:
+        return f"ID {ints(loc.indices)}"
+    return f"I {enc_grid(loc.grid)} {ints(loc.indices)}"
+
+
+def nesting_case(ctx, leafloc, label, req, impl_vals, cases, exact):
+    from armi.reactor import grids
+
+    chain = chain_of(leafloc)
+    enc = " ".join(enc_loc(l) for l in chain)
+    case = {"what": label, "chain": [repr(l) for l in chain]}
+    gc = impl_vec(leafloc.getGlobalCoordinates)
+    gb = impl_vec(leafloc.getGlobalCellBase)
+    gt = impl_vec(leafloc.getGlobalCellTop)
+    for op, v in (("global", gc), ("globalbase", gb), ("globaltop", gt)):
+        req.append(f"{op} {enc}"); impl_vals.append(v); cases.append({**case, "op": op})
+    # oracle: global == local + every ancestor's coordinates
+    tot = np.zeros(3)
+    ok = True
+    for l in chain:
+        lc = impl_vec(l.getLocalCoordinates)
+        if lc is None:
+            ok = False
+            break
+        tot = tot + np.array(lc)
+    if ok and (gc is None or not close_vec(gc, list(tot), scale=float(np.abs(tot).max()))):
+        ctx.fail("nested-global-is-sum", "global coordinates == sum of the local coordinates along the parent chain "
+                 "(including the grid-less origin of the top-level system)", case, observed=gc, expected=list(tot))
+    if gc is not None and gb is not None and gt is not None and not any(isinstance(l, grids.CoordinateLocation) for l in chain[:-1]):
+        # base/top compose the same way (the top of the chain contributes its coordinates)
+        mid = [(a + b) / 2.0 for a, b in zip(gb, gt)]
+        if not close_vec(gc, mid, scale=max(abs(v) for v in gc)):
+            ctx.fail("nested-centre-between-base-and-top", "global centre == (global base + global top) / 2", case,
+                     observed=gc, expected=mid)
+        for d in range(3):
+            lo, hi = min(gb[d], gt[d]), max(gb[d], gt[d])
+            if not (lo - 1e-9 * max(1, abs(lo)) <= gc[d] <= hi + 1e-9 * max(1, abs(hi))):
+                ctx.fail("nested-centre-between-base-and-top", "global centre lies inside [base, top]", {**case, "dim": d},
+                         observed=gc[d], expected=[lo, hi])
+    # complete indices: one level, only axial-in-radial
+    if not isinstance(leafloc, grids.MultiIndexLocation):
+        ci = [float(v) for v in leafloc.getCompleteIndices()]
+        parent = leafloc.parentLocation
+        exact.append((f"complete {enc_loc(leafloc)} {enc_loc(parent) if parent is not None else '_'}",
+                      common.ratlist(ci), {**case, "op": "complete"}))
+        own = [float(v) for v in leafloc.indices]
+        if isinstance(leafloc, grids.CoordinateLocation):
+            want = [0.0, 0.0, 0.0]
+        elif parent is not None and parent.grid is not None and leafloc.grid.isAxialOnly and not parent.grid.isAxialOnly:
+            want = [a + float(b) for a, b in zip(own, parent.indices)]
+        else:
+            want = own
+        if ci != want:
+            ctx.fail("complete-indices-axial-only", "complete indices add the parent's indices only for an axial grid "
+                     "nested in a non-axial grid", case, observed=ci, expected=want)
+
+
+def run_nesting(ctx):
+    from armi.reactor import grids
+    from armi.reactor.flags import Flags
+
+    rng = ctx.rng
+    req, impl_vals, cases, exact = [], [], [], []
+    n = ctx.pick(120, 800)
+    for t in range(n):
+        root, leaf = make_composites(rng, "hex" if t % 2 == 0 else "cart")
+        loc = leaf.spatialLocator
+        nesting_case(ctx, loc, "generated composites", req, impl_vals, cases, exact)
+        # every level of the chain is itself a case
+        for l in chain_of(loc)[1:]:
+            nesting_case(ctx, l, "generated composites (ancestor)", req, impl_vals, cases, exact)
+        ctx.case(("nest", t))
+    # the real reference reactor: core moved to a non-zero grid-less origin, pins in pin-gridded blocks
+    from harness import c08
+
+    blocks = c08.reference_blocks()
+    r = c08._REACTOR["r"]
+    old = r.core.spatialLocator
+    try:
+        for origin in ((0.0, 0.0, 0.0), (112.5, -40.25, 7.0)):
+            r.core.spatialLocator = grids.CoordinateLocation(origin[0], origin[1], origin[2], None)
+            for b in rng.sample(blocks, ctx.pick(3, 12)):
+                nesting_case(ctx, b.spatialLocator, "reference reactor block", req, impl_vals, cases, exact)
+                nesting_case(ctx, b.parent.spatialLocator, "reference reactor assembly", req, impl_vals, cases, exact)
+                pins = b.getPinLocations()
+                for pl in rng.sample(pins, min(len(pins), 3)):
+                    nesting_case(ctx, pl, "reference reactor pin", req, impl_vals, cases, exact)
+                    gc = pl.getGlobalCoordinates()
+                    want = np.array(origin) + b.parent.spatialLocator.getLocalCoordinates() + \
+                        b.spatialLocator.getLocalCoordinates() + pl.getLocalCoordinates()
+                    if np.abs(gc - want).max() > 1e-9 * max(1.0, np.abs(want).max()):
+                        ctx.fail("nested-global-is-sum", "pin global coordinates == origin + assembly + block + pin local",
+                                 {"origin": origin, "block": b.getName(), "pin": repr(pl)}, observed=list(gc), expected=list(want))
+                ctx.case(("nest-real", origin, b.getName()))
+    finally:
+        r.core.spatialLocator = old
+    model = lean_run("Grid", req + [e[0] for e in exact])
+    mv, me = model[: len(req)], model[len(req):]
+    for c, line, v in zip(cases, mv, impl_vals):
+        q = parse_rats(line)
+        if line == "bad-op" or not close_vec(v, q, scale=max([1.0] + [abs(float(x)) for x in (q or [])])):
+            ctx.disagree("Model/Grid.lean nesting vs IndexLocation", c, line, v)
+    ctx.compare("Model/Grid.lean completeIndices vs getCompleteIndices", [e[2] for e in exact], me, [e[1] for e in exact])
+    ctx.evaluations += len(model)
+    ctx.count("nesting chains", len(req) // 3)
+    ctx.samples.append({"request": req[0][:300], "model": mv[0], "impl": impl_vals[0]})
+
+
+# ------------------------------------------------------------------------------------------ changePitch
+def pitch_sequence(rng, p0):
+    seq, p = [], p0
+    for _ in range(rng.randint(2, 6)):
+        r = rng.random()
+        if r < 0.45:
+            p = p * (1.0 + rng.choice([1, -1]) * 10.0 ** rng.uniform(-6, -3))   # thermal-expansion sized
+        elif r < 0.6:
+            p = p0                                                              # back to the start
+        elif r < 0.8:
+            p = p * rng.choice([3.0, 0.5, 1.25])
+        else:
+            p = common.dyadic(rng, 0.5, 30, 4)
+        seq.append(p)
+    return seq
+
+
+def run_changepitch(ctx):
+    from armi.reactor import grids
+
+    rng = ctx.rng
+    req, impl_vals, cases = [], [], []
+    s3 = common.rat(SQRT3)
+    cells = [(i, j) for i in range(-3, 4) for j in range(-3, 4)]
+    for t in range(ctx.pick(40, 300)):
+        cu = t % 2 == 1
+        p0 = rng.choice([16.142, 1.0, 8.25, common.dyadic(rng, 0.5, 20, 4)])
+        n = rng.randint(0, 3)
+        sym = rng.choice(["full", "third periodic"])
+        g = grids.HexGrid.fromPitch(p0, numRings=n, cornersUp=cu, symmetry=sym)
+        A = enc_args(grids.HexGrid._getRawUnitSteps(p0, cu), (None, None, None), ((-n, n), (-n, n), (0, 1)), None, g._geomType, g._symmetry)
+        meta0 = (g.cornersUp, g._symmetry, g._geomType, g.getIndexBounds(), g.isAxialOnly, len(g), tuple(g.offset))
+        labels0 = [g.getLabel((c[0], c[1], 0)) for c in cells]
+        rp0 = [g.getRingPos((c[0], c[1], 0)) for c in cells]
+        seq = pitch_sequence(rng, p0)
+        done = []
+        for p in seq:
+            g.changePitch(p)
+            done.append(p)
+            case = {"kind": "hex", "cornersUp": cu, "p0": p0, "sequence": list(done)}
+            fresh = grids.HexGrid.fromPitch(p, numRings=n, cornersUp=cu, symmetry=sym)
+            if abs(g.pitch - p) > 1e-12 * p:
+                ctx.fail("changepitch-pitch", "grid.pitch is the requested pitch after changePitch", case, observed=g.pitch, expected=p)
+            meta = (g.cornersUp, g._symmetry, g._geomType, g.getIndexBounds(), g.isAxialOnly, len(g), tuple(g.offset))
+            if meta != meta0 or labels0 != [g.getLabel((c[0], c[1], 0)) for c in cells] or \
+                    rp0 != [g.getRingPos((c[0], c[1], 0)) for c in cells]:
+                ctx.fail("changepitch-meta", "changing the pitch changes nothing but coordinates", case, observed=meta, expected=meta0)
+            for c in cells:
+                ix = (c[0], c[1], 0)
+                got = [float(v) for v in g.getCoordinates(ix)]
+                want = [float(v) for v in fresh.getCoordinates(ix)]
+                if not close_vec(got, want, tol=1e-12):
+                    ctx.fail("changepitch-equals-fresh-grid", "after changePitch(p) coordinates equal those of a grid built at p",
+                             {**case, "cell": list(c)}, observed=got, expected=want)
+                    break
+            x0 = g.getCoordinates((1, -1, 0))
+            for (a, b, _k) in g.getNeighboringCellIndices(1, -1, 0):
+                d = float(np.linalg.norm(g.getCoordinates((a, b, 0)) - x0))
+                if abs(d - p) > 1e-9 * p:
+                    ctx.fail("changepitch-neighbour-distance", "neighbours are one (new) pitch away", case, observed=d, expected=p)
+            ix = (rng.randint(-4, 4), rng.randint(-4, 4), 0)
+            req.append(f"hexpitchseq {s3} {common.ratlist(done)} {A} {ints(ix)}")
+            impl_vals.append([float(v) for v in g.getCoordinates(ix)]); cases.append({**case, "index": list(ix)})
+        ctx.case(("pitch-hex", t))
+    for t in range(ctx.pick(40, 300)):
+        isOffset = t % 2 == 1
+        w0, h0 = common.dyadic(rng, 0.5, 20, 3), common.dyadic(rng, 0.5, 20, 3)
+        n = rng.randint(1, 3)
+        g = grids.CartesianGrid.fromRectangle(w0, h0, numRings=n, isOffset=isOffset, symmetry="quarter reflective")
+        off = (w0 / 2.0, h0 / 2.0, 0.0) if isOffset else None
+        A = enc_args(((w0, 0.0, 0.0), (0.0, h0, 0.0), (0, 0, 0)), (None, None, None), ((-n, n), (-n, n), (0, 1)), off, g._geomType, g._symmetry)
+        meta0 = (g._symmetry, g._geomType, g.getIndexBounds(), g.isAxialOnly, len(g), g._isThroughCenter())
+        rp0 = [g.getRingPos((c[0], c[1])) for c in cells]
+        xs, ys = pitch_sequence(rng, w0), None
+        ys = [h0 * (x / w0) if rng.random() < 0.5 else common.dyadic(rng, 0.5, 20, 3) for x in xs]
+        dx, dy = [], []
+        for xw, yw in zip(xs, ys):
+            g.changePitch(xw, yw)
+            dx.append(xw); dy.append(yw)
+            case = {"kind": "cartesian", "isOffset": isOffset, "w0": w0, "h0": h0, "xs": list(dx), "ys": list(dy)}
+            fresh = grids.CartesianGrid.fromRectangle(xw, yw, numRings=n, isOffset=isOffset, symmetry="quarter reflective")
+            if abs(g.pitch[0] - xw) > 1e-12 * xw or abs(g.pitch[1] - yw) > 1e-12 * yw:
+                ctx.fail("changepitch-pitch", "grid.pitch is the requested pitch after changePitch", case, observed=g.pitch)
+            meta = (g._symmetry, g._geomType, g.getIndexBounds(), g.isAxialOnly, len(g), g._isThroughCenter())
+            if meta != meta0 or rp0 != [g.getRingPos((c[0], c[1])) for c in cells]:
+                ctx.fail("changepitch-meta", "changing the pitch changes nothing but coordinates", case, observed=meta, expected=meta0)
+            for c in cells:
+                ix = (c[0], c[1], 0)
+                for f in ("getCoordinates", "getCellBase", "getCellTop"):
+                    got = [float(v) for v in getattr(g, f)(ix)]
+                    want = [float(v) for v in getattr(fresh, f)(ix)]
+                    if not close_vec(got, want, tol=1e-11):
+                        ctx.fail("changepitch-equals-fresh-grid", f"after changePitch {f} equals that of a grid built at the new pitch",
+                                 {**case, "cell": list(c)}, observed=got, expected=want)
+                        break
+            ix = (rng.randint(-4, 4), rng.randint(-4, 4), 0)
+            req.append(f"cartpitchseq {common.ratlist(dx)} {common.ratlist(dy)} {A} {ints(ix)}")
+            impl_vals.append([float(v) for v in g.getCoordinates(ix)]); cases.append({**case, "index": list(ix)})
+        ctx.case(("pitch-cart", t))
+    model = lean_run("Grid", req)
+    for c, line, v in zip(cases, model, impl_vals):
+        q = parse_rats(line)
+        if line == "bad-op" or not close_vec(v, q):
+            ctx.disagree("Model/Grid.lean changePitch vs HexGrid/CartesianGrid.changePitch", c, line, v)
+    ctx.evaluations += len(model)
+    ctx.count("changePitch steps", len(req))
+
+
+# ------------------------------------------------------------------------------------------ entry points
 def run(ctx):
-    return
+    run_cart_ringpos(ctx)
+    run_generated(ctx)
+    run_nesting(ctx)
+    run_changepitch(ctx)
 
 
 def search(ctx, disagreements, broken):
-    return []
+    """re-evaluate the oracles of the part whose correspondence broke, on a fresh quick context."""
+    parts = set()
+    for d in disagreements:
+        w = d.what
+        if "cartRingPos" in w:
+            parts.add(run_cart_ringpos)
+        elif "nesting" in w or "completeIndices" in w:
+            parts.add(run_nesting)
+        elif "changePitch" in w:
+            parts.add(run_changepitch)
+        elif "Model/Grid.lean" in w:
+            parts.add(run_generated)
+    out, seen = [], set()
+    for part in parts:
+        for seed in (ctx.seed, ctx.seed + 101):
+            sub = type(ctx)(ctx.prop, "quick", seed)
+            part(sub)
+            for f in sub.failures:
+                if f.key not in seen:
+                    seen.add(f.key)
+                    out.append(f)
+    return out
